@@ -535,7 +535,8 @@ def search_histories(ctx, n, viol):
         trace = []
         for step in range(int(rng.randint(1, 6))):
             kind = str(rng.choice(["period", "mode_no", "model", "inplace_anis", "inplace_len", "inplace_angles", "update_same_model",
-                                   "update_seed_period", "odd", "inplace_lenlist", "inplace_lenlist", "inplace_intscale_list"]))
+                                   "update_seed_period", "odd", "inplace_lenlist", "inplace_lenlist", "inplace_intscale_list",
+                                   "inplace_anis_elem", "inplace_angles_elem"]))
             if kind == "inplace_intscale_list" and TAGS[tag][0] not in ("Gaussian", "Exponential", "Matern"):
                 kind = "inplace_lenlist"        # per-axis integral scales only where the integral scale is a plain multiple of the length scale
             g = srf.generator
@@ -551,6 +552,15 @@ def search_histories(ctx, n, viol):
                 new["tag"] = int(rng.randint(len(TAGS))); new["anis"] = rnd_anis(rng, dim)
             elif kind == "inplace_anis" and dim > 1:
                 new["anis"] = rnd_anis(rng, dim)
+            elif kind == "inplace_anis_elem" and dim > 1:
+                # ONE entry of the array that `model.anis` returns is overwritten (no setter runs): the model is changed all the same
+                i_el = int(rng.randint(dim - 1))
+                na = list(anis); na[i_el] = rnd_anis(rng, dim)[i_el]
+                new["anis"], new["elem"] = na, (i_el, na[i_el])
+            elif kind == "inplace_angles_elem" and dim > 1:
+                i_el = int(rng.randint(len(angles)))
+                ng = list(angles); ng[i_el] = rnd_angles(rng, dim)[i_el]
+                new["angles"], new["elem"] = ng, (i_el, ng[i_el])
             elif kind == "inplace_len":
                 new["len_scale"] = float(rng.choice([2.0, 3.0, 5.0, 7.0, 11.0, 13.0, 17.0]))   # well separated: not inside the isclose band
             elif kind == "inplace_angles" and dim > 1:
@@ -606,6 +616,10 @@ def search_histories(ctx, n, viol):
                     srf.model = mk_model(tag, dim, anis, angles)
                 elif kind == "inplace_anis" and dim > 1:
                     anis = new["anis"]; srf.model.anis = anis
+                elif kind == "inplace_anis_elem" and dim > 1:
+                    anis = new["anis"]; srf.model.anis[new["elem"][0]] = new["elem"][1]
+                elif kind == "inplace_angles_elem" and dim > 1:
+                    angles = new["angles"]; srf.model.angles[new["elem"][0]] = new["elem"][1]
                 elif kind == "inplace_len":
                     srf.model.len_scale = new["len_scale"]
                 elif kind == "inplace_angles" and dim > 1:
